@@ -1,7 +1,7 @@
 (* C03 — scheduling preserves the iteration space.
    Only theorem statements closed by `exact`, each followed by Print Assumptions. *)
 From Snax Require Import Base.Prelude Model.C03Schedule Model.C03Yields Model.C16Matcher
-  Proofs.C03ScheduleProofs Proofs.C03BacktrackProofs.
+  Proofs.C03ScheduleProofs Proofs.C03CanonProofs Proofs.C03BacktrackProofs.
 From Coq Require Import Permutation.
 
 (* image s = the list, over all points x of the iteration box (lexicographic), of the tuple
@@ -43,6 +43,31 @@ Proof.
   split; [eapply add_dim_image; eassumption | apply wf_schedb_ok; eapply add_dim_wf; eassumption].
 Qed.
 Print Assumptions C03_add_dim_image.
+
+(* Dropping unit dimensions: Schedule.clear_unused_dims() and Schedule.canonicalize() (what the
+   dart-scheduler pass applies before the search) keep the tuples in the same order. *)
+Theorem C03_clear_unused_image :
+  forall s s', wf_schedb s = true -> s_clear None s = Some s' -> image s' = image s /\ wf_schedb s' = true.
+Proof.
+  intros s s' H Hc. apply wf_schedb_ok in H. destruct (clear_unused_image s s' H Hc) as [Hi Hw].
+  split; [exact Hi | apply wf_schedb_ok; exact Hw].
+Qed.
+Print Assumptions C03_clear_unused_image.
+
+Theorem C03_canonicalize_image :
+  forall s s', wf_schedb s = true -> s_canon s = Some s' -> image s' = image s /\ wf_schedb s' = true.
+Proof.
+  intros s s' H Hc. apply wf_schedb_ok in H. destruct (canonicalize_image s s' H Hc) as [Hi Hw].
+  split; [exact Hi | apply wf_schedb_ok; exact Hw].
+Qed.
+Print Assumptions C03_canonicalize_image.
+
+Example C03_canon_nonvacuous :
+  let s : sched := [mkPat [1; 8; 1; 8] [[1; 0]; [0; 0]; [5; 5]; [0; 1]] [0; 3]] in
+  wf_schedb s = true /\ s_canon s = Some [mkPat [8; 8] [[0; 0]; [0; 1]] [0; 3]] /\
+  s_clear None s = Some [mkPat [8; 8] [[0; 0]; [0; 1]] [0; 3]].
+Proof. vm_compute. auto. Qed.
+Print Assumptions C03_canon_nonvacuous.
 
 (* The backtracking search: EVERY schedule yielded (not only the first), for every template
    (bounded / unbounded dims), every matcher, every list of extra checks, every starting level k and
